@@ -201,6 +201,7 @@ type Exec struct {
 	fdCache   map[*pbFieldInfo]*PRField
 	freshChoice bool
 	tokenTable  []tokenEntry
+	freezing    string
 }
 
 type pathEnd struct {
